@@ -31,6 +31,7 @@ def handle (m : Mode) (ds : DState) (raw : String) : DState × String :=
         let ds' := match robs with | some r => { ds with prev := r } | none => ds
         (ds', s!"M {mtxt} ## S {oracleEnd cx ds.prev robs}")
       else
+        let line := normDrainEnd line
         let mo := if ds.prev.st.big then none else step cx line robs
         let mtxt := match mo with
           | some o => fmtObs cx ds.prev.live ds.prev.dbl o
